@@ -559,6 +559,7 @@ Proof.
 Qed.
 
 (* ================================================================ statements collected for Props.v *)
+Close Scope Z_scope.
 Lemma radix_literal_exact_all :
   (forall r d ds rest, radix_ok r -> rdigits r (d :: ds) -> rstop r rest ->
      number_token (48 :: radix_char r :: (d :: ds) ++ rest) = TInt (pos_value r (d :: ds)) rest) /\
@@ -600,29 +601,8 @@ Proof.
 Qed.
 
 Lemma float_bits_layout :
-  (forall q sh, 2 ^ 52 <= q < 2 ^ 53 -> -1074 <= sh -> sh + 1075 < 2047 ->
-     bits_of q sh = FBits ((sh + 1075) * 2 ^ 52 + (q - 2 ^ 52))) /\
-  (forall q, 0 <= q < 2 ^ 52 -> bits_of q (-1074) = FBits q).
+  (forall q sh, (2 ^ 52 <= q < 2 ^ 53 -> -1074 <= sh -> sh + 1075 < 2047 ->
+     bits_of q sh = FBits ((sh + 1075) * 2 ^ 52 + (q - 2 ^ 52)))%Z) /\
+  (forall q, (0 <= q < 2 ^ 52)%Z -> bits_of q (-1074) = FBits q).
 Proof. split; [exact bits_of_normal | exact bits_of_subnormal]. Qed.
 
-(* spellings rejected by number_chars/number_codes and, followed by " .", not read as a number either *)
-Definition rejected (s : list N) : Prop :=
-  number_chars_model s = MSyn /\ read_model (s ++ [32%N; 46%N]) = MNotNum.
-
-Definition rejected_spellings : list (list N) := map cs
-  ["1__0"; "1_a"; "1_."; "0x"; "0xg"; "0o8"; "0b2"; "0B1"; "0XFF"; "00x1"; "0''"; "0'ab"; "0'\e"; "0'\x41"; "0'\xD800\";
-   "0'\x110000\"; "1.e5"; "1.0e"; "1.0e+"; "1.0e-"; "1.5_0"; "1.5e1_0"; "1.0Inf"; "1.0e400"; "1.7976931348623159e308"; "1e10";
-   "+1"; "--1"; "- - 1"; "-a"; "a"; ""; " "; ".5"; "1 .0"; "1_/* c"; "0'\"; "-"; "0x_1"; "_1"]%string.
-
-Lemma rejected_all : Forall rejected rejected_spellings.
-Proof.
-  unfold rejected_spellings. cbn [map].
-  repeat (apply Forall_cons; [split; vm_compute; reflexivity|]). apply Forall_nil.
-Qed.
-
-(* spellings accepted by number_chars only because the input ends inside the token (NumberToken::Partial), although the
-   reader rejects them: the mirror reproduces the disagreement of the entry points *)
-Lemma partial_disagreement :
-  number_chars_model (cs "1_") = MNum (NInt 1) /\ read_model (cs "1_ .") = MNotNum /\ agree (cs "1_") = false /\
-  number_chars_model (cs "1_/") = MNum (NInt 1) /\ agree (cs "1_/") = false.
-Proof. repeat split; vm_compute; reflexivity. Qed.
